@@ -107,9 +107,26 @@ fn simplify(st: &Step) -> Vec<Step> {
     out
 }
 
+/// deterministic cost of executing a plan once (steps, weighted by the sizes that dominate model time)
+fn cost(plan: &Plan) -> usize {
+    let nbq = plan.steps.iter().filter(|s| matches!(s, Step::BQ { .. })).count();
+    plan.steps
+        .iter()
+        .map(|s| match s {
+            Step::Msm { ss, .. } => 1 + ss.len(),
+            Step::Pre { ss, ds, .. } => 1 + ss.len() + ds.len(),
+            Step::BFlush { .. } => 1 + nbq,
+            Step::Disk { .. } => 2000,
+            _ => 1,
+        })
+        .sum()
+}
+
 pub fn shrink(plan: &Plan, v: &Violation) -> (Plan, Violation) {
     let class = v.class.clone();
-    let mut budget = 600usize;
+    // the budget is in executions, but never more than a fixed amount of (deterministic) work
+    let per_exec = cost(plan).max(1);
+    let mut budget = (600usize).min(400_000 / per_exec).max(12);
     let mut cur = plan.clone();
     let mut curv = v.clone();
     // 0. a Disk enumeration narrows to its one failing load
